@@ -63,7 +63,9 @@ func (p *Program) exec(s *node, fr *frame) flow {
 		return p.execBlock(s.kids, fr)
 	case "decl":
 		var v *Val
-		if len(s.kids) > 0 {
+		if len(s.kids) > 0 && s.t.K == '?' {
+			v = p.eval(s.kids[0]).clone()
+		} else if len(s.kids) > 0 {
 			v = p.initValue(s.t, s.kids[0])
 		} else {
 			v = zero(s.t) // reading it before a write is checked by the WGSL side, not here
@@ -730,6 +732,9 @@ func layout(t *Type, m layoutMode) (size, align int) {
 		if t.Bits == 8 {
 			return 1, 1
 		}
+		if t.Bits == 16 {
+			return 2, 2
+		}
 		return 4, 4
 	case 'V':
 		es, _ := layout(t.Elem, m)
@@ -776,7 +781,7 @@ func layout(t *Type, m layoutMode) (size, align int) {
 func mapBytes(v *Val, base int, m layoutMode, visit func(cell *Val, byteOff int)) {
 	switch v.T.K {
 	case 'b', 'i', 'u', 'f':
-		if v.T.Bits != 8 {
+		if v.T.Bits != 8 && v.T.Bits != 16 {
 			visit(v, base)
 		}
 	case 'V':
@@ -876,4 +881,28 @@ func storeImage(v *Val, m layoutMode, words []uint32) []uint32 {
 		}
 	})
 	return out
+}
+
+// StructLayout returns the byte offset of every member of the struct called name and the
+// struct's size, by the target language's layout rules for storage buffers (MSL: C++ layout
+// with Metal's vector sizes; GLSL: std430). ok is false when the struct is not declared.
+func (p *Program) StructLayout(name string) (offsets map[string]int, size int, ok bool) {
+	t, found := p.structs[name]
+	if !found {
+		return nil, 0, false
+	}
+	mode := layStd430
+	if p.d == MSL {
+		mode = layMSL
+	}
+	offsets = map[string]int{}
+	off := 0
+	for _, f := range t.Fields {
+		fs, fa := layout(f.T, mode)
+		off = roundUp(fa, off)
+		offsets[f.Name] = off
+		off += fs
+	}
+	size, _ = layout(t, mode)
+	return offsets, size, true
 }
